@@ -12,8 +12,8 @@ from . import sched as _sched
 
 VERIF = _ex.VERIF
 KNOWN = os.path.join(VERIF, 'known_findings.json')
-REPLAYS = os.path.join(VERIF, 'replays')
-EVIDENCE = os.path.join(VERIF, 'evidence')
+REPLAYS = os.environ.get('VERIF_REPLAY_DIR') or os.path.join(VERIF, 'replays')
+EVIDENCE = os.environ.get('VERIF_EVIDENCE_DIR') or os.path.join(VERIF, 'evidence')
 
 
 def load_known():
